@@ -77,6 +77,9 @@ RSq(a)     == RMul(a, a)
 RHalf(a)   == RDiv(a, "2")
 \* |a - b| <= tol * scale
 RClose(a, b, tol, scale) == RLeq(RAbs(RSub(a, b)), RMul(tol, scale))
+\* the identity on functions and sequences; the Java override returns the explicitly evaluated value (TLC keeps
+\* [x \in S |-> e] as a lazy closure and re-evaluates e at every application): use it to tabulate once
+RForce(f) == f
 \* tokens a recorder may write for non-finite floats
 IsNum(a)   == a \notin {"nan", "inf", "-inf"}
 \* |got - exact| <= tau * |exact| + floor   (got must be a finite number)
